@@ -6,6 +6,10 @@
 //! with the Lean model (`ClarabelModel/Update.lean`) started from the same internal state.
 //! The oracle re-runs the history on a second solver and states the property directly.
 #![allow(non_snake_case)]
+#[path = "common_cones.rs"]
+mod common_cones;
+#[path = "c08_solve.rs"]
+mod c08_solve;
 use clarabel::algebra::*;
 use clarabel::solver::*;
 use std::iter::zip;
@@ -1220,6 +1224,9 @@ fn channels() -> Vec<Channel> {
             lean: "Update.step / C08.refines_spec, kkt_in_sync, norm_cache, rejects_leave_untouched" },
         Channel { name: "upd.index_to_coord", tol: Tol::Exact, run: run_i2c, oracle: Some(oracle_i2c), modelled: true,
             rust_fn: "CscMatrix::index_to_coord", lean: "Update.colOf / Update.rowOf" },
+        Channel { name: "upd.solve", tol: Tol::Exact, run: c08_solve::run_solve, oracle: Some(c08_solve::oracle_solve), modelled: true,
+            rust_fn: "DefaultSolver::update_P/q/A/b/update_data interleaved with IPSolver::solve (whole trajectories, observer) + internal data, KKT copy, norm values",
+            lean: "Solver.Solver.updateP/updateQ/updateA/updateB/updateData, Solver.Solver.runU, Solver.Solver.solve / C08.full_update_then_solve_eq_rebuilt, C08.full_rejected_update_post_state" },
         Channel { name: "upd.known", tol: Tol::Exact, run: run_known, oracle: Some(oracle_known), modelled: false,
             rust_fn: "DefaultSolver::update_data + solve (known finding: stale equilibration after an extreme rescale)", lean: "-" },
     ]
@@ -1619,6 +1626,18 @@ fn submit_history(s: &mut Session, p: &Prob, ops: &[Op]) {
 }
 
 fn generate(s: &mut Session) {
+    // debugging aid (sensitivity runs): `C08_ONLY_SOLVE=1` runs the `upd.solve` stage alone
+    if std::env::var("C08_ONLY_SOLVE").is_ok() {
+        c08_solve::generate_solve(s);
+        clarabel::default_infinity();
+        NOTES.with(|n| {
+            for (k, v) in n.borrow().iter() {
+                s.note(format!("{}: {}", k, v));
+            }
+            n.borrow_mut().clear();
+        });
+        return;
+    }
     // index_to_coord: every index of small patterns, plus one index beyond nnz
     for _ in 0..s.budget(150, 3000) {
         let (m, n) = (1 + s.rng.below(4), 1 + s.rng.below(5));
@@ -1708,6 +1727,9 @@ fn generate(s: &mut Session) {
         let ops: Vec<Op> = (0..3).map(|_| gen_op(&mut rng, &p, &sh, &patP, &patA, 0.2)).collect();
         submit_history(s, &p, &ops);
     }
+    // histories of updates interleaved with solve() on the whole solver object (channel upd.solve)
+    c08_solve::generate_solve(s);
+    clarabel::default_infinity();
     if !s.is_searching() {
         s.submit(Line::new("upd.known").f("scale", 1e9).done());
     }
